@@ -3,8 +3,11 @@ Fault injection for engine E2: a process-wide audit hook sees every filesystem-m
 root (open for writing, mkdir, rename/replace, remove/unlink, truncate, rmdir) and, together with wrapped "step"
 functions (per-window / per-chunk writes through already open handles), numbers the *deviation points* of a run in
 program order.  `Crash` (a BaseException, so that no `except Exception` in the library can swallow it) is raised
-before the k-th point.
+before the k-th point.  A second fault kind, `InjectedError` (an OSError, i.e. an ordinary exception that the
+library's own `except Exception` / `finally` clean-up code sees: disk full, permission denied, a failing rename),
+can be raised at the same points: "the operation fails" instead of "the process dies".
 """
+import errno
 import os
 import sys
 
@@ -15,12 +18,17 @@ class Crash(BaseException):
     """the process dies here"""
 
 
+class InjectedError(OSError):
+    """the k-th filesystem operation / processing step fails with an I/O error (the process goes on)"""
+
+
 class _Injector(object):
     def __init__(self):
         self.root = None
         self.active = False
         self.count = 0
         self.crash_at = None
+        self.kind = "kill"
         self.log = []
         self.installed = False
         self.fired = False
@@ -49,6 +57,8 @@ class _Injector(object):
         if self.crash_at is not None and k == self.crash_at and not self.fired:
             self.fired = True
             self.active = False
+            if self.kind == "error":
+                raise InjectedError(errno.ENOSPC, "injected I/O error at point %d: %s" % (k, what))
             raise Crash("crash before point %d: %s" % (k, what))
 
     def _hook(self, event, args):
@@ -72,8 +82,6 @@ class _Injector(object):
                 what = "rename:%s->%s" % (os.path.relpath(os.fspath(args[0]), self.root), os.path.relpath(os.fspath(args[1]), self.root))
             else:
                 return
-        except Crash:
-            raise
         except Exception:
             return
         self.point(what)
@@ -85,9 +93,11 @@ INJ = _Injector()
 class watch(object):
     """with watch(root, crash_at=k, steps=[(obj, 'method', label), ...]) as w: ... ; w.count / w.log / w.crashed"""
 
-    def __init__(self, root, crash_at=None, steps=()):
+    def __init__(self, root, crash_at=None, steps=(), kind="kill"):
         self.root = os.path.join(os.path.realpath(root), "")
         self.crash_at = crash_at
+        self.kind = kind
+        self.fired = False
         self.steps = steps
         self.saved = []
         self.crashed = False
@@ -98,6 +108,7 @@ class watch(object):
         INJ.count = 0
         INJ.log = []
         INJ.crash_at = self.crash_at
+        INJ.kind = self.kind
         INJ.fired = False
         for obj, name, label in self.steps:
             if not hasattr(obj, name):
@@ -120,5 +131,6 @@ class watch(object):
             setattr(obj, name, orig)
         self.count = INJ.count
         self.log = list(INJ.log)
+        self.fired = INJ.fired
         self.crashed = et is not None and issubclass(et, Crash)
         return self.crashed          # swallow the Crash: the caller sees .crashed
